@@ -6,6 +6,8 @@ mod sequence;
 mod status;
 mod uplink;
 mod uplink_recv;
+#[cfg(feature = "verif-hooks")]
+pub mod verif_hooks;
 
 use std::collections::HashMap;
 use std::net::{IpAddr, Ipv6Addr, SocketAddr};
